@@ -205,11 +205,11 @@ def h_memlimit(code: int) -> bool:
     pre: 0 <= code < CODEMAX
     post: _
     """
-    nd = NDCode(code)
-    kinds = [nd.draw(0, 2)] + [0] * (NT - 1)          # the memory check follows every completed task, whatever its outcome
-    maxtasks = NT * nd.draw(0, 1)
-    mem = [MEMS[nd.draw(0, len(MEMS) - 1)] for _ in range(NT)]
     try:
+        nd = NDCode(code)
+        kinds = [nd.draw(0, 2)] + [0] * (NT - 1)          # the memory check follows every completed task, whatever its outcome
+        maxtasks = NT * nd.draw(0, 1)
+        mem = [MEMS[nd.draw(0, len(MEMS) - 1)] for _ in range(NT)]
         return _protocol(kinds, maxtasks, None, None, NT, mem, None)
     except Prune:
         return True
